@@ -7,7 +7,9 @@ from pathlib import Path
 
 from .regex_to_lean import category_ranges, lean_str, pattern_to_lean
 
-REPO = Path("/repo")
+import os
+
+REPO = Path(os.environ.get("VERIF_REPO", "/repo"))
 PROPS = ["C09"]
 
 SITES = [
